@@ -13,6 +13,9 @@ CFG = dict(
                "the counted near-boundary classes) and, in the whole-number-factor families, to be the correctly rounded exact quotient. "
                "trusted: Coq kernel + vm_compute, translator gen-unittable, harness, strings.ToLower beyond ASCII.",
     translators=[("gen-unittable", "Gen/Gen_UnitTable.v")],
+    # only whole_factor_conversion_correctly_rounded (Flocq + Reals) depends on these standard-library axioms
+    allowed_axioms=["ClassicalDedekindReals.sig_not_dec", "ClassicalDedekindReals.sig_forall_dec",
+                    "FunctionalExtensionality.functional_extensionality_dep", "Classical_Prop.classic"],
     rule="inputs = (op, value, from-unit, to-unit): full spelling x target matrix (every alias, plural, case variant, "
          "unknown units) with rotating boundary values, plus random triples, monotonicity pairs, percentages and "
          "CommonValueType lists, and text reports (pprof -top rows: labels under -unit/minimum and divide_by, flat%/sum%/cum%) of small "
@@ -20,9 +23,13 @@ CFG = dict(
          "(scale/label), x != y (mono), both operands non-zero (pct), >= 2 types (common)",
     spec_what="unit conversion / label read-back / monotonicity / percentage differs from the C15 statement",
     trusted_base=["translator gen-unittable (dumps measurement.UnitTypes, factors as exact rationals of the float64s)",
+                  "Flocq 4 (IEEE754.BinarySingleNaN, PrimFloat equivalence lemmas) and Coq Reals with their standard axioms, for one theorem",
                   "Coq SpecFloat (binary64 operations as Gallina functions) taken as the meaning of Go's float64 + - * /, int64->float64 and fmt %.2f/%.2g; agreement is observed bit for bit on every case",
                   "the exact-rational specification is not applied to a float result within float noise of a rounding/selection boundary (classes 900/901, counted in evidence)",
                   "strings.ToLower modelled for ASCII only"],
-    assumptions=["the theorems of P_C15 are about the exact-rational model; its link to the float model is checked per case (within float rounding), not proved",
+    assumptions=["the theorems of P_C15 are about the exact-rational model; its link to the float model is PROVED for the whole-number-factor families "
+                 "(memory, time) while value*factor < 2^53 (whole_factor_conversion_correctly_rounded: the float result is the correctly rounded "
+                 "exact quotient; Flocq, uses the standard library's real-number axioms classic, sig_forall_dec, sig_not_dec, "
+                 "functional_extensionality_dep) and checked per case elsewhere (GCU family, larger products)",
                  "text-report rows are generated for single-frame samples with pairwise distinct |value| (ordering of ties is C08's subject)"],
  )
